@@ -792,26 +792,17 @@ nist_muladd_case(const impl_t *im, curve_t *c, const unsigned char *abuf, const 
 	yl = enc_scalar(yb, y, c, ky);
 	if (BN_is_zero(x) || BN_is_zero(y)) {
 		/*
-		 * bearssl_ec.h: multipliers "MUST be non-zero" and "If either
-		 * integer is zero, then an error is reported".  Mathematically
-		 * 0*A + y*B = y*B.  Either answer is accepted here: an error, or
-		 * success with the correct point; success with another point is
-		 * a violation under both readings.
+		 * bearssl_ec.h (muladd): "If either integer is zero, then an
+		 * error is reported".
 		 */
-		const EC_POINT *PP = BN_is_zero(x) ? (B ? B : EC_GROUP_get0_generator(c->g)) : A;
-		const BIGNUM *kk = BN_is_zero(x) ? y : x;
 		r = call_muladd(im->impl, got, abuf, bbuf, c->ptlen, xb, xl, yb, yl, c->id);
 		vf_stat("cmp_muladd", 1);
+		vf_stat("cmp_muladd_must_fail", 1);
 		vf_stat("cmp_muladd_zero_multiplier", 1);
 		vf_distinct("arith_cfg", "%s %s muladd %s %s", im->name, c->name, cls, bbuf ? "B" : "G");
-		if (r == 0) {
-			vf_stat("obs_muladd_zero_multiplier_ret0", 1);
-		} else if (!BN_is_zero(kk) && ref_mul(c, ref, PP, kk) && memcmp(got, ref, c->ptlen) == 0) {
-			vf_stat("obs_muladd_zero_multiplier_ret1_correct", 1);
-		} else {
-			vf_stat("obs_muladd_zero_multiplier_ret1_wrong", 1);
-			VIOL(mkkey("muladd-zero-multiplier-wrong-result", im, c->name),
-				"muladd() with a zero multiplier returned success (documented: error) and a point that is not x*A+y*B",
+		if (r != 0) {
+			VIOL(mkkey("muladd-zero-accepted", im, c->name),
+				"muladd() with a zero multiplier did not report the documented error",
 				"seed=%lld i=%lld cls=%s ret=%u A=%s B=%s x=%s y=%s got=%s", g_seed, idx, cls, r,
 				vf_hexs(abuf, c->ptlen), bbuf ? vf_hexs(bbuf, c->ptlen) : "G", vf_hexs(xb, xl), vf_hexs(yb, yl), vf_hexs(got, c->ptlen));
 		}
